@@ -206,6 +206,42 @@ theorem binary_at_3 (r : Request) (e : Entry) (hl : 3 ≤ r.level) :
   unfold inScope
   simp [ht]
 
+/-- The `replace` planner at level ≥ 3: the sniff plays no role either, but a file that is not valid UTF-8 is still left
+    out when `process_file_content` refuses it (`Gen.replaceSkipsInvalidUtf8`; apply reads files as `String` and could
+    never edit it). -/
+theorem binary_at_3_simple (r : Request) (e : Entry) (hl : 3 ≤ r.level) :
+    inScopeSimple P r e = (walked (P.cfgFor r) r.site e.path && globsOk P.G r.gm r.globs (simpleGlobPath P r e) &&
+      isFileFor P.simpleFollows e && (!Gen.replaceSkipsInvalidUtf8 || Utf8.valid e.content)) := by
+  have ht : P.binaryAsText r.level = true := (binaryAsText_iff r.level).mpr hl
+  have hs : P.simpleSkipsInvalidUtf8 = Gen.replaceSkipsInvalidUtf8 := rfl
+  unfold inScopeSimple
+  simp [ht, hs]
+
+/-- `replace`, every level: a file that is not valid UTF-8 is never planned — once the planner refuses such files -/
+theorem simple_invalid_utf8_never (hfix : Gen.replaceSkipsInvalidUtf8 = true) (r : Request) (e : Entry)
+    (hv : Utf8.valid e.content = false) : inScopeSimple P r e = false := by
+  have hs : P.simpleSkipsInvalidUtf8 = true := hfix
+  unfold inScopeSimple
+  simp [hs, hv]
+
+/-- "binary by sniffing" and "not valid UTF-8" are different notions: `caf\xE9 foo_bar` has no NUL, BOM or magic number -/
+def latin1Entry : Entry := { path := [b!"latin1.txt"], ftype := .file, content := b!"caf" ++ [233] ++ b!" foo_bar" }
+/-- … valid UTF-8 with a NUL byte: binary for the sniff only -/
+def nulEntry : Entry := { path := [b!"nul.txt"], ftype := .file, content := b!"foo_bar" ++ [0] ++ b!"x" }
+
+example : isBinary P.S latin1Entry.content = false ∧ Utf8.valid latin1Entry.content = false := by decide
+example : isBinary P.S nulEntry.content = true ∧ Utf8.valid nulEntry.content = true := by decide
+/-- `plan`/`rename` scan the Latin-1 file at every level (they work on bytes) -/
+example : [0, 1, 2, 3].map (fun l => inScope P (bareRequest l) latin1Entry) = [true, true, true, true] := by decide
+/-- both shapes of the `replace` planner, decided by the generated flag: it skips the Latin-1 file at every level and
+    takes the NUL file at level 3 only — or (lossy decoding) it takes the Latin-1 file at every level -/
+theorem simple_invalid_utf8_both_shapes :
+    (Gen.replaceSkipsInvalidUtf8 = true ∧
+      [0, 1, 2, 3].map (fun l => inScopeSimple P (bareRequest l) latin1Entry) = [false, false, false, false] ∧
+      [0, 1, 2, 3].map (fun l => inScopeSimple P (bareRequest l) nulEntry) = [false, false, false, true]) ∨
+    (Gen.replaceSkipsInvalidUtf8 = false ∧
+      [0, 1, 2, 3].map (fun l => inScopeSimple P (bareRequest l) latin1Entry) = [true, true, true, true]) := by decide
+
 /-- the documented binary column -/
 theorem binary_matches_docs : ∀ l, l ≤ 3 →
     Gen.docBinarySkippedMdx[l]? = some (!Gen.binaryAsText l) ∧ Gen.docBinarySkippedReadme[l]? = some (!Gen.binaryAsText l) := by
